@@ -294,7 +294,8 @@ def c08(tier):
             if not ok:
                 ck.violation("C08.total", f"{_cls(d, v['exception'][0])}:{r['name']}:{s}",
                              f"design {r['name']}: synthesize_trials with {s} raised {v['exception'][0]}: {v['exception'][1]}",
-                             _replay(d, strategy=s, exception=v["exception"]))
+                             _replay(d, strategy=s, exception=v["exception"]),
+                             tags=dict(kind=v["exception"][0], strategy=s, features=SC.feature_class(d)))
         if "T_error" in r:
             ck.violation("C08.total", f"{_cls(d, r['T_error'][0])}:{r['name']}:trials_per_sample", f"design {r['name']}: trials_per_sample raised {r['T_error'][:2]}",
                          _replay(d, strategy="trials_per_sample", exception=r["T_error"]))
